@@ -373,6 +373,20 @@ fn exec_inner(src: &Dyn, objs: &[&Dyn], kind: &OpKind, ctx: &ExecCtx) -> Answer 
       }
       Answer::Bool(m.get(&objs[*probe]).is_some())
     }
+    OpKind::CloneEditObserve { call, then } => {
+      match src.as_any().downcast_ref::<rspack_sources::ReplaceSource<rspack_sources::BoxSource>>() {
+        Some(r) => {
+          let mut b = r.clone();
+          if ctx.cb_points {
+            user_point("op.cloned");
+          }
+          crate::spec::apply_call(&mut b, call);
+          let inner: &Dyn = &b;
+          exec_inner(inner, objs, then, ctx)
+        }
+        None => Answer::Bool(true),
+      }
+    }
     OpKind::CloneThen { then } => {
       let c: Box<dyn Source> = dyn_clone::clone_box(src);
       if ctx.cb_points {
